@@ -1093,6 +1093,7 @@ fn driver_line(ctx: &mut Ctx, sc: &Driver, z: f64, bubble: bool, opts: SolverOpt
     }
     let mut present = vec![false; grid.len()];
     let (mut prev_t, mut prev_p, mut in_p_part) = (0.0f64, 0.0f64, false);
+    let mut p_dir: Option<bool> = None;
     for g in &got {
         digest_num(&mut ctx.dg, g);
         // ordering: no point twice; temperatures increase along the temperature-specified
@@ -1110,7 +1111,11 @@ fn driver_line(ctx: &mut Ctx, sc: &Driver, z: f64, bubble: bool, opts: SolverOpt
             }
             prev_p = g.p;
         } else if in_p_part {
-            if !(g.p > prev_p * (1.0 + 1e-9)) {
+            // the pressure grid runs from the junction towards the critical pressure, which lies
+            // below the junction when the temperature part ended in the retrograde region
+            let up = p_dir.get_or_insert(g.p > prev_p);
+            let ok = if *up { g.p > prev_p * (1.0 + 1e-9) } else { g.p < prev_p * (1.0 - 1e-9) };
+            if !ok {
                 ctx.out.violate("driver-order", "driver_line", format!("dew line of {} (z={z}): pressure {} follows {} (point repeated or out of order)", sys.name, g.p, prev_p));
             }
             prev_p = g.p;
@@ -1505,5 +1510,50 @@ impl Engine for C12 {
             "oracle applied only for guesses inside the stated window (0.3 T_c, factor 3 in pressure, composition guess within 0.35); outside it deviations are counted, not judged".into(),
             "thresholds: pure 1e-9, bubble/dew 1e-7, flash 1e-5 (relative) and 1e-6 (mole fractions)".into(),
         ]
+    }
+}
+
+
+/// debugging aid: equilibrium residuals of the guided and the stand-alone result of the last
+/// pure-component operation of a replay file
+pub fn debug_replay(path: &str) {
+    let rf: ReplayFile = serde_json::from_str(&std::fs::read_to_string(path).unwrap()).unwrap();
+    let Scenario::Session(sc) = serde_json::from_value(rf.scenario).unwrap() else { return };
+    let sys = &pool().pures[sc.sys];
+    let resid = |v: &Vle| {
+        let gv = v.vapor().molar_gibbs_energy(Contributions::Total).to_reduced();
+        let gl = v.liquid().molar_gibbs_energy(Contributions::Total).to_reduced();
+        let pv = v.vapor().pressure(Contributions::Total).to_reduced();
+        let pl = v.liquid().pressure(Contributions::Total).to_reduced();
+        ((gv - gl) / v.vapor().temperature.to_reduced(), (pv - pl) / pv)
+    };
+    let mut pool_v: Vec<Vle> = Vec::new();
+    for op in &sc.ops {
+        match op {
+            SOp::PurePNpt { tf, dt } => {
+                let rt = ref_pure_t(sc.sys, tf * sys.tc).unwrap();
+                let m = arr1(&[1.0]) * MOL;
+                let g = Vle::new_npt(&sys.eos, (rt.t + dt) * KELVIN, Pressure::from_reduced(rt.p), &m, &m).unwrap();
+                let v = Vle::pure(&sys.eos, Pressure::from_reduced(rt.p), Some(&g), SolverOptions::default()).unwrap();
+                println!("pure_p result T={} residuals (dg/T, dp/p) = {:?}", v.vapor().temperature, resid(&v));
+                pool_v.push(v);
+            }
+            SOp::PureT { tf, guess } => {
+                let t = tf * sys.tc;
+                let g = guess.map(|g| pool_v[g % pool_v.len()].clone());
+                let a = Vle::pure(&sys.eos, t * KELVIN, g.as_ref(), SolverOptions::default()).unwrap();
+                let b = Vle::pure(&sys.eos, t * KELVIN, None, SolverOptions::default()).unwrap();
+                println!("guided     p={:e} residuals {:?}", a.vapor().pressure(Contributions::Total).to_reduced(), resid(&a));
+                println!("standalone p={:e} residuals {:?}", b.vapor().pressure(Contributions::Total).to_reduced(), resid(&b));
+                let c = Vle::pure(&sys.eos, t * KELVIN, Some(&a), SolverOptions::default()).unwrap();
+                println!("guided again from guided: p={:e} residuals {:?}", c.vapor().pressure(Contributions::Total).to_reduced(), resid(&c));
+                let o = SolverOptions::default().verbosity(feos_core::Verbosity::Iter);
+                let _ = Vle::pure(&sys.eos, t * KELVIN, g.as_ref(), o);
+                println!("---- stand-alone:");
+                let _ = Vle::pure(&sys.eos, t * KELVIN, None, o);
+                pool_v.push(a);
+            }
+            _ => {}
+        }
     }
 }
